@@ -7,6 +7,7 @@ LANES="${1:-4}"; GLOB="${2:-*}"
 ROOT="$(cd "$(dirname "$0")/.." && pwd)"
 BASE="$(mktemp -d /tmp/retrial-XXXXXX)"
 OUT="$ROOT/seeded/RETRIAL.md"
+[ "$GLOB" = "*" ] || OUT="$(mktemp /tmp/retrial-partial-XXXXXX.md)"   # partial runs do not replace the table
 dirs=( $(cd "$ROOT/seeded" && ls -d $GLOB 2>/dev/null | grep -E '^(R[0-9]+-)?C[0-9]+-[0-9]+$' | sort) )
 echo "retrial of ${#dirs[@]} seeded changes in $LANES lanes under $BASE"
 lane() {
